@@ -127,6 +127,7 @@ struct Tx {
   std::string qname_lc;  // lower-case text of first question
   int api_seq = 0;       // sequence number of the top-level library call in progress
   uint32_t seq = 0;      // call-log sequence number at the instant of the transmission
+  std::string src_ip;    // local address of the sending socket
   int cb_depth = 0;      // >0 when sent from inside a completion callback
   int attempt = 0;       // per (server,question) attempt counter
   int behaviour = -1;    // server behaviour chosen
